@@ -239,10 +239,12 @@ def run(ctx):
             ctx.tlc("MC_Signer", cfg, coverage=not q, timeout=3000, require_actions=() if q else ("SignPass",))
 
     # 2. spec -> code
-    if want("replay"):
+    if want("replay") or any(o.startswith("replay_") for o in (only or ())):
         plans = ([("MC_SignerReplay_ord_q", {}), ("MC_SignerReplay_prod", {}), ("MC_SignerReplay_lim_q", {})] if q else
                  [("MC_SignerReplay_ord_t", {}), ("MC_SignerReplay_prod", {}), ("MC_SignerReplay_lim_t", {})])
         for cfg, kw in plans:
+            if only is not None and "replay" not in only and not any(o.startswith("replay_") and o[7:] in cfg for o in only):
+                continue
             recs, r = _collect(ctx, "MC_SignerReplay", cfg, timeout=3000, **kw)
             if not recs:
                 raise MachineryError("no behaviour printed by %s" % cfg)
